@@ -1397,7 +1397,7 @@ func (d *DFA) determinize(cache *DFACache, current *State, b byte) (*State, erro
 	// Compute state key INCLUDING word context AND match delay flag.
 	// With match delay, the same NFA state set can produce both match and
 	// non-match DFA states (depending on whether the source had NFA match).
-	key := ComputeStateKeyWithWordAndMatch(nextNFAStates, nextIsFromWord, isMatch)
+	key := computeOrderedStateKey(nextNFAStates, nextIsFromWord, isMatch)
 
 	// Check if state already exists in cache
 	if existing, ok := cache.Get(key); ok {
@@ -1437,7 +1437,7 @@ func (d *DFA) determinize(cache *DFACache, current *State, b byte) (*State, erro
 		cur := NewStateWithStride(InvalidState, current.nfaStates, current.isMatch, current.isFromWord, d.AlphabetLen())
 		cur.matchAtWordBoundary = current.matchAtWordBoundary
 		cur.matchAtNonWordBoundary = current.matchAtNonWordBoundary
-		curKey := ComputeStateKeyWithWordAndMatch(cur.nfaStates, cur.isFromWord, cur.isMatch)
+		curKey := computeOrderedStateKey(cur.nfaStates, cur.isFromWord, cur.isMatch)
 		if existing, ok := cache.Get(curKey); ok {
 			cur = existing
 		} else {
@@ -1512,7 +1512,7 @@ func (d *DFA) tryClearCache(cache *DFACache) error {
 	// With 1-byte match delay, start states are never match states.
 	startState := NewStateWithStride(StartState, startStateSet, false, false, d.AlphabetLen())
 
-	key := ComputeStateKeyWithWord(startStateSet, false)
+	key := computeOrderedStateKey(startStateSet, false, false)
 	_, _ = cache.Insert(key, startState) // Cannot fail: cache was just cleared
 	cache.registerState(startState)
 
